@@ -14,6 +14,7 @@ import multiprocessing
 import os
 import pickle
 import shutil
+import sys
 import tempfile
 import threading
 
@@ -702,6 +703,90 @@ def stream_payloads(ctx):
             break
 
 
+# ----------------------------------------------------------------------------- (v-b) the worker survives its own error reports
+class _BrokenStderr:
+    """a sys.stderr that misbehaves the way a closed pipe / full disk does"""
+
+    def __init__(self, mode):
+        self.mode = mode
+        self.lines = []
+
+    def write(self, text):
+        if self.mode in ("write_oserror", "all_oserror"):
+            raise OSError(32, "Broken pipe")
+        self.lines.append(text)
+        return len(text)
+
+    def flush(self):
+        if self.mode in ("flush_oserror", "all_oserror"):
+            raise OSError(32, "Broken pipe")
+
+
+def stream_worker_errors(ctx):
+    """enqueue=True, catch=True, a sink that refuses some messages, and a sys.stderr that is itself broken (writes or
+    flushes fail with OSError, as for a closed pipe) or absent: the report may be lost, but the worker lives on - every
+    other accepted message is written and complete() returns"""
+    import contextlib
+    import loguru._logger as lg
+    rng = ctx.rng.fork("werr")
+    modes = ["ok", "write_oserror", "flush_oserror", "all_oserror", "none"]
+    for ci in range(ctx.n(10, 100)):
+        r0 = rng.fork("c%d" % ci)
+        mode = modes[ci % len(modes)]
+        n = r0.range(3, 7)
+        refuse = {i for i in range(n) if r0.chance(40)} or {1}
+        got, bad = [], []
+
+        def sink(m, refuse=refuse):
+            i = int(m.record["message"][1:])
+            if i in refuse:
+                raise ValueError("sink refuses m%d" % i)
+            got.append(m.record["message"])
+
+        logger = lg.Logger(core=lg.Core(), exception=None, depth=0, record=False, lazy=False, colors=False, raw=False,
+                           capture=True, patchers=[], extra={})
+        hid = logger.add(sink, enqueue=True, format="{message}", catch=True)
+        err = None if mode == "none" else _BrokenStderr(mode)
+        done = threading.Event()
+        raised = []
+
+        def work():
+            for i in range(n):
+                try:
+                    logger.info("m%d" % i)
+                except BaseException as e:
+                    raised.append((i, repr(e)))
+            logger.complete()
+            done.set()
+        saved = sys.stderr
+        sys.stderr = err
+        try:
+            th = threading.Thread(target=work, daemon=True)
+            th.start()
+            finished = done.wait(20)
+            if finished:
+                rdone = threading.Event()
+                threading.Thread(target=lambda: (logger.remove(hid), rdone.set()), daemon=True).start()
+                if not rdone.wait(20):
+                    bad.append("remove() did not return within 20 s (stderr mode %s)" % mode)
+        finally:
+            sys.stderr = saved
+        want = ["m%d" % i for i in range(n) if i not in refuse]
+        if not finished:
+            bad.insert(0, "complete() did not return within 20 s: the worker died while reporting a sink error on a "
+                          "sys.stderr in mode %r (messages %d, refused %r, written %r)" % (mode, n, sorted(refuse), got))
+        elif raised:
+            bad.append("logging call %d raised %s with catch=True" % raised[0])
+        elif got != want:
+            bad.append("enqueue handler wrote %r, expected %r (refused %r, stderr mode %s)" % (got, want, sorted(refuse), mode))
+        ctx.case(("werr", mode, n, tuple(sorted(refuse))), nontrivial=True)
+        ctx.stat("worker_errors:" + mode)
+        if bad:
+            ctx.violation(bad[0], {"stream": "worker_errors", "mode": mode, "n": n, "refuse": sorted(refuse),
+                                   "violations": bad})
+            break
+
+
 # ----------------------------------------------------------------------------- (vi) the program simply ends
 def stream_exit(ctx):
     """no loss at normal interpreter exit: the owner never calls remove()/complete(); the queue is drained by the
@@ -757,7 +842,7 @@ def stream_exit(ctx):
 
 
 def run(ctx):
-    for stream in (stream_shapes, stream_payloads, stream_exit, stream_sched, stream_mp, stream_asyncio, stream_two_loops):
+    for stream in (stream_shapes, stream_payloads, stream_worker_errors, stream_exit, stream_sched, stream_mp, stream_asyncio, stream_two_loops):
         stream(ctx)
         if ctx.violations and getattr(ctx, "search_boost", False):
             return           # enlarged search after a broken obligation: a failing input has been found
